@@ -168,7 +168,7 @@ SYM_PRE = {
 def l1_loader_module(prop: str, tier: str) -> Module:
     quick = tier == "quick"
     slen = 2 if quick else 3
-    tmo = 60 if quick else 900
+    tmo = 60 if quick else 300
     m = Module(f"{prop.lower()}_l1").pre(SETUP)
     for name, (texpr, mode, alpha) in SCALARS.items():
         for strict in ((True, False) if prop != "C07" else (None,)):
